@@ -332,7 +332,10 @@ func ParseTokenParam(buf []byte, offs int, param *PTokParam,
 					// e.g.: foo;p1 bar => consider bar new param
 					param.state = paramFIN
 					// return separator pos (as expected)
-					if i >= offs+1 {
+					// (the separator is the whitespace before the token, if
+					// any: do not depend on where the current call started)
+					if i >= 1 && (buf[i-1] == ' ' || buf[i-1] == '\t' ||
+						buf[i-1] == '\r' || buf[i-1] == '\n') {
 						return i - 1, ErrHdrOk
 					} else {
 						return i, ErrHdrOk
@@ -481,7 +484,10 @@ func ParseTokenParam(buf []byte, offs int, param *PTokParam,
 					// e.g.: foo;p1=5 bar =>  consider bar new param
 					param.state = paramFIN
 					// return separator pos (as expected)
-					if i >= offs+1 {
+					// (the separator is the whitespace before the token, if
+					// any: do not depend on where the current call started)
+					if i >= 1 && (buf[i-1] == ' ' || buf[i-1] == '\t' ||
+						buf[i-1] == '\r' || buf[i-1] == '\n') {
 						return i - 1, ErrHdrOk
 					} else {
 						return i, ErrHdrOk
